@@ -1,6 +1,7 @@
 import Driver.Proto
 import Gql.Async.Assemble
 import Gql.Async.Plan
+import Gql.Async.CollectDefer
 /-!
 Line-protocol driver for C04.
 
@@ -301,6 +302,74 @@ def runPlan (ws : List String) : String :=
         | _, _ => "bad-op"
   | _ => "bad-op"
 
+/-! ### collect -/
+
+open Gql.Async.Collect in
+def parseDefer (w : String) : Option (Option (Option Nat)) :=
+  if w = "-" then some none
+  else if w = "N" then some (some none)
+  else if w.startsWith "L" then (w.drop 1).toString.toNat?.map (fun l => some (some l))
+  else none
+
+def parseBool (w : String) : Option Bool :=
+  if w = "1" then some true else if w = "0" then some false else none
+
+open Gql.Async.Collect in
+mutual
+def parseSel : Nat → List String → Option (Sel × List String)
+  | 0, _ => none
+  | fuel + 1, "F" :: k :: n :: i :: rest => do
+    let _ := fuel
+    pure (.field (← k.toNat?) (← n.toNat?) (← parseBool i), rest)
+  | fuel + 1, "I" :: i :: c :: d :: n :: rest => do
+    let (sels, rest') ← parseSels fuel (← n.toNat?) rest
+    pure (.inline (← parseBool i) (← parseBool c) (← parseDefer d) sels, rest')
+  | fuel + 1, "S" :: i :: c :: nm :: d :: n :: rest => do
+    let (sels, rest') ← parseSels fuel (← n.toNat?) rest
+    pure (.spread (← parseBool i) (← parseBool c) (← nm.toNat?) (← parseDefer d) sels, rest')
+  | _, _ => none
+def parseSels : Nat → Nat → List String → Option (List Sel × List String)
+  | 0, _, _ => none
+  | _, 0, toks => some ([], toks)
+  | fuel + 1, k + 1, toks => do
+    let (x, rest) ← parseSel fuel toks
+    let (xs, rest') ← parseSels fuel k rest
+    pure (x :: xs, rest')
+end
+
+open Gql.Async.Collect in
+def parseParts : Nat → Nat → List String → Option (List (Option Nat × List Sel))
+  | 0, _, _ => none
+  | _, 0, [] => some []
+  | _, 0, _ :: _ => none
+  | fuel + 1, k + 1, du :: n :: rest => do
+    let du ← parseOptNat du
+    let (sels, rest') ← parseSels fuel (← n.toNat?) rest
+    let more ← parseParts fuel k rest'
+    pure ((du, sels) :: more)
+  | _, _, _ => none
+
+def showOptNat : Option Nat → String
+  | none => "-"
+  | some n => toString n
+
+/-- `collect <base> <nparts> (<du|-> <nsels> sel…)…` → `key:node/du,…;… | label/parent,…` -/
+def runCollect (ws : List String) : String :=
+  match ws with
+  | base :: np :: rest =>
+    match base.toNat?, np.toNat? with
+    | some base, some np =>
+      match parseParts (rest.length + 2) np rest with
+      | some parts =>
+        let st := Gql.Async.Collect.collectSubfields base parts
+        ";".intercalate (st.grouped.map (fun g =>
+          toString g.1 ++ ":" ++ ",".intercalate (g.2.map (fun fd => toString fd.node ++ "/" ++ showOptNat fd.du))))
+        ++ " | " ++
+        ",".intercalate (st.newUsages.map (fun u => showOptNat u.1 ++ "/" ++ showOptNat u.2))
+      | none => "bad-op"
+    | _, _ => "bad-op"
+  | _ => "bad-op"
+
 def step (line : String) : String :=
   match words line with
   | "asm" :: toks =>
@@ -308,6 +377,7 @@ def step (line : String) : String :=
     | some (j, []) => runCheck j
     | _ => "bad-json"
   | "plan" :: ws => runPlan ws
+  | "collect" :: ws => runCollect ws
   | _ => "bad-op"
 
 end C04
